@@ -65,7 +65,7 @@ Theorem C02_slice_projection :
      match x with
      | VArr xs =>
        if two63 <=? zlen xs then OutOfFuel else
-       match py_slice xs a b c with
+       match py_slice xs a b (cjoin c) with
        | Some ys => ys0 <- mapM (rhs_eval ord r) ys ;; Ok (VArr (drop_nulls ys0))
        | None => Err EEval
        end
